@@ -243,7 +243,7 @@ int main(int argc, char** argv) {
   size_t from = plan.value("from", 0), to = plan.value("to", plan["runs"].size());
   for (size_t i = from; i < to && i < plan["runs"].size(); i++) {
     json r = run_one(plan["runs"][i], inputs);
-    rf << r.dump() << "\n";
+    rf << r.dump(-1, ' ', false, json::error_handler_t::replace) << "\n";   // exception texts may quote input bytes that are not UTF-8
     rf.flush();
   }
   return 0;
